@@ -26,7 +26,7 @@ COMP = {"A": "T", "C": "G", "G": "C", "T": "A", "N": "N"}
 
 
 def rc(s):
-    return "".join(COMP[c] for c in reversed(s))
+    return "".join(COMP.get(c, c) for c in reversed(s))
 
 
 def rand_seq(rng, n):
@@ -174,6 +174,9 @@ def _gen_variants(rng, gene, contig_seq, opts):
                 continue
             ref = "".join(seq[g : g + k])
             alt = "".join(rng.choice([x for x in "ACGT" if x != c]) for c in ref)
+            if k == 3 and opts.get("gapped_mnp") and rng.random() < 0.6:
+                # the middle base is not part of the substitution (written G.G>A.C in the database)
+                ref, alt = ref[0] + "." + ref[2], alt[0] + "." + alt[2]
             v = {"kind": "mnp", "g": g, "ref": ref, "alt": alt}
             span = (g, g + k)
         elif kind == "del":
@@ -761,7 +764,7 @@ def _haplotype(contig, z0, z1, variants):
                 cols.append((contig[i], i))
                 i += 1
             for j, c in enumerate(v["alt"]):
-                cols.append((c, g + j))
+                cols.append((contig[g + j] if c == "." else c, g + j))
             i = g + len(v["alt"])
         elif k == "del":
             while i < g:
